@@ -347,7 +347,7 @@ Proof.
   destruct (IH Hwh) as (Nh & (fh & Fh & FCh & Uh) & (zh & Lh & LCh & Bh)).
   destruct (steps_good (s :: ss) Hws ltac:(discriminate)) as (Ns & (fs & Fs & FCs) & (zs & Ls & LCs)).
   assert (Hsne : pp_steps (s :: ss) <> []) by (intro E; rewrite E in Fs; discriminate).
-  cbn [pp_items]. destruct (head_bare h) eqn:Hb.
+  cbn [pp_items]. rewrite (head_bare_p_wf h Hwh). destruct (head_bare h) eqn:Hb.
   - specialize (Bh eq_refl). destruct (lcb_before _ Bh) as (B1 & B2 & B3 & B4).
     split; [|split].
     + rewrite no_fuse_app, Nh, Ns, Lh, Fs. cbn [bnd].
